@@ -27,16 +27,31 @@ def _pattern_ok(p):
     return True
 
 
+def _qid(vs, patterns):
+    """a readable name for the quantifier (shows up in z3's instantiation profile)"""
+    try:
+        if patterns:
+            h = patterns[0]
+            while z3.is_app(h) and h.decl().kind() == z3.Z3_OP_SELECT:
+                h = h.arg(0)
+            import re as _re
+            return _re.sub(r'[^A-Za-z0-9_.]', '_', 'q_%s_%s' % (vs[0], h.decl().name() if z3.is_app(h) else 'x'))[:60]
+        import re as _re
+        return _re.sub(r'[^A-Za-z0-9_.]', '_', 'q_%s_nopat' % vs[0])
+    except Exception:
+        return 'q'
+
+
 def forall(vs, body, patterns=None):
     """ForAll with patterns when they are valid patterns (selects over lambdas reduce to ite and are not)"""
     if patterns:
         ok = [p for p in patterns if _pattern_ok(p)]
         if ok:
             try:
-                return z3.ForAll(vs, body, patterns=ok)
+                return z3.ForAll(vs, body, patterns=ok, qid=_qid(vs, ok))
             except z3.Z3Exception:
                 pass
-    return z3.ForAll(vs, body)
+    return z3.ForAll(vs, body, qid=_qid(vs, None))
 
 
 def add0(off, i):
